@@ -100,8 +100,10 @@ impl PSock {
             if libc::bind(fd, &sll as *const _ as *const libc::sockaddr, std::mem::size_of::<libc::sockaddr_ll>() as u32) != 0 {
                 return Err(format!("bind: {}", std::io::Error::last_os_error()));
             }
-            let sz: i32 = 4 << 20;
+            let sz: i32 = 16 << 20;
             libc::setsockopt(fd, libc::SOL_SOCKET, libc::SO_RCVBUF, &sz as *const _ as *const libc::c_void, 4);
+            // beyond rmem_max (we are root in the worker)
+            libc::setsockopt(fd, libc::SOL_SOCKET, libc::SO_RCVBUFFORCE, &sz as *const _ as *const libc::c_void, 4);
             let one: i32 = 1;
             libc::setsockopt(fd, libc::SOL_SOCKET, libc::SO_TIMESTAMPNS, &one as *const _ as *const libc::c_void, 4);
             // software transmit timestamps (read back from the error queue by `send_ts`), software receive timestamps
@@ -197,6 +199,20 @@ impl PSock {
     /// next frame that arrived on the interface (frames we sent ourselves are skipped)
     pub fn recv(&self) -> Option<Vec<u8>> {
         self.recv_ts().map(|x| x.0)
+    }
+
+    /// frames the kernel dropped at this socket since the last call (receive queue full): the harness then has not
+    /// seen everything that was on the wire
+    pub fn dropped(&self) -> u32 {
+        unsafe {
+            let mut st: [u32; 2] = [0; 2]; // struct tpacket_stats { tp_packets, tp_drops }
+            let mut len: libc::socklen_t = 8;
+            if libc::getsockopt(self.fd, libc::SOL_PACKET, libc::PACKET_STATISTICS, st.as_mut_ptr() as *mut libc::c_void, &mut len) == 0 {
+                st[1]
+            } else {
+                0
+            }
+        }
     }
 
     /// like `recv`, with the kernel's receive timestamp (system time, ns) of the frame
@@ -659,6 +675,11 @@ impl World {
         }
         let d = Instant::now() + extra;
         self.run_until(d);
+    }
+
+    /// frames lost at the harness's own sockets since the last call
+    pub fn capture_drops(&self) -> u32 {
+        self.a1.dropped() + self.b1.dropped()
     }
 
     pub fn send_a(&self, m: &RMsg) -> bool {
@@ -1597,9 +1618,9 @@ pub fn case_c10(w: &mut World, t: &mut Tape) -> E2eOut {
         let d = Instant::now() + Duration::from_millis(plug_ms);
         w.run_until(d);
         let _ = sh(&format!("tc qdisc change dev {} root tbf rate 1gbit burst 400000 limit 4000000", dev));
+        // the bucket stays in place, wide open (deleting it would drop whatever is still queued in it)
         let d = Instant::now() + Duration::from_millis(300);
         w.run_until(d);
-        let _ = sh(&format!("tc qdisc del dev {} root", dev));
         out.label("daemon:egress-plugged");
     }
     let master_port = PortId { clock: w.own_identity, port: (1 - w.slave_idx) as u16 + 1 };
@@ -1910,6 +1931,7 @@ pub fn worker_main(args: &[String]) -> i32 {
             Some(v) => Tape::replay(v.clone()),
             None => Tape::fresh(seed ^ hash_str("daemon"), idx),
         };
+        let _ = w.capture_drops();
         let r = match prop.as_str() {
             "C15" => case_c15(&mut w, &mut tape, idx as u32),
             "C19" => case_c19(&mut w, exporter.as_ref().unwrap(), &mut tape),
@@ -1923,6 +1945,13 @@ pub fn worker_main(args: &[String]) -> i32 {
             }
         };
         let mut r = r;
+        let lost = w.capture_drops();
+        if lost > 0 && r.inconclusive.is_none() {
+            // the harness did not see everything that was on the wire (it was not scheduled for too long): whatever
+            // the case concluded is not reliable
+            r.inconclusive = Some(format!("{} frames dropped at the harness's capture sockets (machine overloaded)", lost));
+            r.out.violation = None;
+        }
         if !r.out.render.is_object() {
             r.out.render = json!({});
         }
